@@ -264,7 +264,8 @@ func c06b(c *Ctx, a *absVariant) {
 			if get.Args[0] != ev.Args[1] || set.Args[1] != ev.Args[1] {
 				bad = append(bad, fmt.Sprintf("%s: lookup node %s, evaluated node %s, stored node %s differ", a.V.Where(set.Pos), get.Args[0], ev.Args[1], set.Args[1]))
 			}
-			if key.K != "sp" || key.A != ev.Pt {
+			// the key is the savepoint taken where the evaluation started, or the offset read from that savepoint
+			if !((key.K == "sp" || (key.K == "spfield" && key.B == "offset")) && key.A == ev.Pt) {
 				bad = append(bad, fmt.Sprintf("%s: store is keyed by savepoint %s but the evaluation started at %s (key must be loaded before the evaluation)", a.V.Where(set.Pos), key, ev.Pt))
 			}
 			if get.Args[1] != ev.Pt {
@@ -350,6 +351,11 @@ func c06b(c *Ctx, a *absVariant) {
 			switch x := n.(type) {
 			case *ast.IndexExpr:
 				if nospace(x) == "p.memo["+sp[0]+".offset]" {
+					okS1 = true
+				}
+				// the caller hands over the offset itself (an int): what it is the offset of is decided at the call
+				// sites by the memo-discipline rule (C06-b)
+				if nospace(x) == "p.memo["+sp[0]+"]" && nospace(sm.Type.Params.List[0].Type) == "int" {
 					okS1 = true
 				}
 			case *ast.AssignStmt:
@@ -572,42 +578,44 @@ func memoTableTotal(c *Ctx, v *variants.Variant, rule string) {
 	r.Check(len(bad) == 0 && len(paths) > 0, rule, "T.setMemoized:stores-on-every-path", vn, v.Where(sm.Pos()), fmt.Sprintf("%d paths, each ends with the store; conditions only create missing maps", len(paths)), strings.Join(uniq(bad), "; "))
 	bad = nil
 	node := firstParam(gm)
-	paths = enumPaths(gm.Body)
+	npaths := c.vnorm(v).normPaths(gm)
+	paths = nil
 	nHit := 0
-	for _, p := range paths {
-		last := p[len(p)-1]
-		if last.Kind != "return" {
-			bad = append(bad, "a path does not return")
+	for _, p := range npaths {
+		paths = append(paths, p)
+		ret := lastReturn(p)
+		parts := splitTop(ret, ",")
+		if p[len(p)-1].Kind != "return" || len(parts) != 2 {
+			bad = append(bad, "a path does not return a tuple and a flag")
 			continue
 		}
-		if strings.HasSuffix(last.Text, ",false") {
+		if dollarRe.FindString(parts[1]) == parts[1] {
+			// a named result that was never assigned on this path holds its zero value
+			if v, _ := lastSet(p, parts[1]); v == "zero" {
+				parts[1] = "zero"
+			}
+		}
+		if parts[1] == "false" || parts[1] == "zero" {
 			// a miss: must be justified by an emptiness test taken positively
 			just := false
-			for _, e := range p {
-				if e.Kind == "+" && (strings.HasPrefix(e.Text, "len(") && strings.HasSuffix(e.Text, ")==0") || strings.HasSuffix(e.Text, "==nil")) && !strings.Contains(e.Text, node) {
+			for _, f := range p.facts() {
+				if (strings.HasPrefix(f, "len(") && strings.HasSuffix(f, ")==0") || strings.HasSuffix(f, "==nil")) && !strings.Contains(f, node) {
 					just = true
 				}
 			}
 			if !just {
-				bad = append(bad, "a miss is reported on the path ["+strings.Join(p.guards(), " ")+"] although the table was not found empty")
+				bad = append(bad, "a miss is reported on the path ["+strings.Join(p.facts(), " ")+"] although the table was not found empty")
 			}
 			continue
 		}
 		nHit++
-		// the answer of the map lookup itself
-		okLookup := false
-		for _, e := range p {
-			if as, ok := e.Node.(*ast.AssignStmt); ok && e.Kind == "assign" && len(as.Lhs) == 2 && len(as.Rhs) == 1 && strings.HasSuffix(nospace(as.Rhs[0]), "["+node+"]") && last.Text == nospace(as.Lhs[0])+","+nospace(as.Lhs[1]) {
-				okLookup = true
-			}
+		// the answer of the map lookup itself: X[node], ok(X[node])
+		if !(strings.HasSuffix(parts[0], "["+node+"]") && parts[1] == "ok("+parts[0]+")") {
+			bad = append(bad, "the hit path returns "+ret+", not the result of the map lookup by node")
 		}
-		if !okLookup {
-			bad = append(bad, "the hit path returns "+last.Text+", not the result of the map lookup by node")
-		}
-		for _, gd := range p.guards() {
-			t := gd[1:]
-			if strings.Contains(t, node) || !(strings.HasPrefix(t, "len(") && (strings.HasSuffix(t, ")==0") || strings.HasSuffix(t, ")>0")) || strings.HasSuffix(t, "==nil") || strings.HasSuffix(t, "!=nil")) {
-				bad = append(bad, "the lookup depends on `"+t+"`")
+		for _, f := range p.facts() {
+			if strings.Contains(f, node) || !(strings.HasPrefix(f, "len(") && (strings.HasSuffix(f, ")==0") || strings.HasSuffix(f, ")>0")) || strings.HasSuffix(f, "==nil") || strings.HasSuffix(f, "!=nil")) {
+				bad = append(bad, "the lookup depends on `"+f+"`")
 			}
 		}
 	}
